@@ -26,7 +26,7 @@ _c = {}
 # topology: parent body of each body (body 0 = world), dofs per body
 TOPO = {'chain3': ([0, 0, 1, 2], [0, 1, 1, 1]), 'fork3': ([0, 0, 1, 1], [0, 1, 1, 1]), 'twodof': ([0, 0, 1], [0, 2, 1]), 'trees': ([0, 0, 0, 2], [0, 1, 1, 1]),
         'chain4': ([0, 0, 1, 2, 3], [0, 1, 1, 1, 1]), 'fork4': ([0, 0, 1, 1, 3], [0, 1, 1, 1, 1]), 'chain5': ([0, 0, 1, 2, 3, 4], [0, 1, 1, 1, 1, 1]),
-        'mixed5': ([0, 0, 1, 1, 3, 0], [0, 2, 1, 1, 0, 1]), 'free3': ([0, 0, 1], [0, 3, 1])}
+        'mixed5': ([0, 0, 1, 1, 3, 0], [0, 2, 1, 1, 0, 1]), 'free3': ([0, 0, 1], [0, 3, 1]), 'free6h': ([0, 0, 1], [0, 6, 1])}
 
 
 def mod():
